@@ -43,7 +43,7 @@ from explorerscript.ssb_converting.ssb_data_types import (
     SsbOpParamFixedPoint,
 )
 from explorerscript.ssb_converting.ssb_special_ops import SsbLabel, SsbLabelJump
-from explorerscript.util import exps_int, _
+from explorerscript.util import exps_int, _, f
 
 
 class ListenerArgType(Enum):
@@ -313,9 +313,15 @@ class SsbScriptCompilerListener(SsbScriptListener):
         self._labels_before_op.append(label)
 
     def _enlarge_routine_info(self) -> None:
+        if self._active_routine_id < 0:
+            raise SsbCompilerError(_("Routine ids must not be negative."))
         if len(self.routine_infos) - 1 < self._active_routine_id:
             needed = self._active_routine_id - len(self.routine_infos) + 1
             for i in range(0, needed):
                 self.routine_infos.append(None)  # type: ignore
                 self.routine_ops.append([])
                 self.named_coroutines.append([])  # type: ignore
+        elif self.routine_infos[self._active_routine_id] is not None:
+            # noinspection PyUnusedLocal
+            routine_id = self._active_routine_id  # noqa
+            raise SsbCompilerError(f(_("The routine {routine_id} is defined more than once.")))
